@@ -5,7 +5,7 @@ decode; CPython's strict codec rejects both.  execnet's DumpError-on-unencodable
 behaviour (C01) and the loader's UnicodeDecodeError paths (C13) depend on exactly that, so
 the model is made faithful here.  (Every solver counterexample is replayed on plain CPython
 anyway; this patch is what lets the *holds* direction be meaningful for strings.)
-Only errors="strict" is modelled for the surrogate case - the only mode execnet uses.
+The surrogate case goes through the codec's error protocol, so other `errors=` modes behave as in CPython.
 """
 
 from __future__ import annotations
@@ -25,10 +25,24 @@ def apply() -> None:
         for ch in string[start:]:
             cp = ord(ch)
             if 0xD800 <= cp <= 0xDFFF:
-                raise UnicodeEncodeError("utf-8", "", idx, idx + 1, "surrogates not allowed")
+                if mode["strict"]:
+                    raise UnicodeEncodeError("utf-8", "", idx, idx + 1, "surrogates not allowed")   # (no realisation on this path)
+                # reported through the codec's chunk protocol, so that the caller's `errors` handler decides what happens
+                # (strict: UnicodeEncodeError; surrogateescape / surrogatepass / replace ...: as in CPython, on the realised string)
+                return (SymbolicBytes(byte_ints), idx, MidChunkError("surrogates not allowed"))
             byte_ints.extend(enc_cp(cp))
             idx += 1
         return (SymbolicBytes(byte_ints), len(string), None)
+
+    mode = {"strict": True}
+    orig_encode = utf_8.Utf8StemEncoder.encode.__func__
+
+    def encode(cls, input, errors="strict"):
+        mode["strict"] = isinstance(errors, str) and errors == "strict"
+        try:
+            return orig_encode(cls, input, errors)
+        finally:
+            mode["strict"] = True
 
     def _decode_chunk(cls, byts, start):
         out, end, err = orig_decode_chunk(cls, byts, start)
@@ -38,6 +52,7 @@ def apply() -> None:
 
     _patch_percent_format()
     _patch_setattr()
+    utf_8.Utf8StemEncoder.encode = classmethod(encode)
     utf_8.Utf8StemEncoder._encode_chunk = classmethod(_encode_chunk)
     utf_8.Utf8StemEncoder._decode_chunk = classmethod(_decode_chunk)
 
